@@ -1,9 +1,9 @@
-\* quick: 2 nodes, every kind, one interval, atomic read-write pairs: all invariants hold
+\* quick: 2 nodes, the kinds that take part in the protocol (fsckn, skip, peek are in MC_Mmp.cfg), one interval, atomic read-write pairs: all invariants hold
 SPECIFICATION Spec
 CONSTANTS
   Nodes = {1, 2}
   Seqs = {1, 2}
-  KindSet = {"rw", "rwd", "fsck", "ro", "fsckn", "skip", "peek", "clear"}
+  KindSet = {"rw", "rwd", "fsck", "ro", "clear"}
   RwPolls = {0, 1}
   FsckPolls = {0, 1}
   MinIval = 1
